@@ -152,7 +152,7 @@ def tlc(wd, module, cfg=None, *, workers="auto", simulate=None, depth=None, seed
     """Runs TLC on specs copied to wd. simulate = num of behaviours (per worker)."""
     spec_dir(wd)
     meta = tempfile.mkdtemp(prefix="md-", dir=wd)
-    cmd = ["java", "-XX:+UseParallelGC"]
+    cmd = ["java", "-XX:+UseParallelGC", "-Djava.io.tmpdir=" + wd]   # TLC unpacks its modules into tmpdir: keep that in the scratch dir
     if heap:
         cmd.append("-Xmx" + heap)
     cmd += list(jvm) + ["-cp", TLC_CP, "tlc2.TLC", "-metadir", meta]
